@@ -48,7 +48,7 @@ class World:
     PROBES_EXPECTED = ["regime-few", "regime-many", "regime-boundary", "asymmetric-state", "basis-state", "adversarial-single-outcome",
                        "cross-regime-same-outcome", "exact-expectation", "measured-expectation", "cache-cleared", "user-seeded-runner",
                        "peer-fault", "sampled-distribution", "exact-distribution", "operator-object-reused", "register-wider-than-8",
-                       "deficit-sampling-refused"]
+                       "deficit-sampling-refused", "helper-results-edited"]
 
     def gen_plan(self, seed, tier):
         r = random.Random(seed)
@@ -70,7 +70,7 @@ class World:
             n = r.choice([n_run, n_run, n_run, wmin])
             wide = k_step == wide_at
             if wide:
-                n = r.choice([9, 9, 10])   # registers wider than one byte of outcome bits
+                n = r.choice([9, 9, 10, 11])   # registers wider than one byte of outcome bits (11: 2048 basis states)
             if wide or r.random() < 0.4:
                 while True:
                     bits = [r.randint(0, 1) for _ in range(n)]
@@ -102,6 +102,9 @@ class World:
             if cfg["faults"] != "none" and r.random() < 0.15:
                 s["fault"] = r.choice([{"kind": "peer", "at": r.randrange(0, 3)}, {"kind": "alloc", "at": r.randrange(0, 40)}])
             steps.append(s)
+        if r.random() < 0.3:
+            steps.insert(r.randrange(len(steps)), {"op": "helpers", "args": {"n": r.choice([n_run, n_run, max(1, n_run - 1)])},
+                                                  "client": 0, "rs": r.getrandbits(32)})
         if r.random() < 0.15:
             nd = r.choice([1, 2, 2, 3])
             steps.insert(r.randrange(len(steps) + 1), {
@@ -221,9 +224,32 @@ class World:
                                   f"(state with total probability 1 - {a['d']:.2e}, support indices {support})")
         ctx.log("deficit", "ok", n=n, samples=a["samples"])
 
+    def _do_helpers(self, ctx, st, step, a):
+        """Another client of the same process uses the library's public bit-order helpers and treats what they
+        return as its own (reverses, clears, extends the lists / dicts).  None of that is the runners' business."""
+        from orquestra.quantum import utils as U
+        from orquestra.quantum.wavefunction import Wavefunction
+
+        n = a["n"]
+        for fn, args, edit in (
+            (getattr(U, "get_ordered_list_of_bitstrings", None), (n,), lambda x: x.reverse()),
+            (getattr(U, "convert_bitstrings_to_tuples", None), (["0" * n, "1" * n, "1" + "0" * (n - 1)],), lambda x: x.reverse()),
+            (getattr(U, "convert_tuples_to_bitstrings", None), ([(0,) * n, (1,) + (0,) * (n - 1)],), lambda x: x.clear()),
+            (lambda k: Wavefunction.zero_state(k).get_outcome_probs(), (n,), lambda x: x.clear()),
+        ):
+            if fn is None:
+                continue
+            ok, res = call(fn, *args)
+            if ok and isinstance(res, (list, dict)):
+                call(edit, res)
+        ctx.probe("helper-results-edited")
+        ctx.log("helpers", "ok", n=n)
+
     def step(self, ctx, st, step):
         if step["op"] == "deficit":
             return self._do_deficit(ctx, st, step, step["args"])
+        if step["op"] == "helpers":
+            return self._do_helpers(ctx, st, step, step["args"])
         a = step["args"]
         cfg = ctx.config
         si = a["sim"] % len(st["sims"])
@@ -380,6 +406,8 @@ class World:
         if s["op"] == "deficit":
             if "n" in a and a["n"] > 1:
                 yield {**s, "args": {**a, "n": a["n"] - 1}}
+            return
+        if s["op"] == "helpers":
             return
         ops = a["c"]["ops"]
         for i in range(len(ops)):
